@@ -170,6 +170,35 @@ theorem jls_run_length_bound (bs : List Bool) (idx remaining : Int) (h0 : 0 ≤ 
     ∀ rl i rest, decodeRunLength bs idx remaining = .ok (rl, i, rest) → 0 ≤ rl ∧ rl ≤ remaining ∧ 0 ≤ i ∧ i ≤ 31 :=
   decodeRunLength_bound bs idx remaining h0 h31 hrem
 
+/-- (10b) the run-index bookkeeping the model of (10) uses IS the code's: the REGENERATED
+    `RunModeScanner.incRunIndex` / `DecRunIndex` (jpegls/lossless/runmode.go, shared by both decoders)
+    change nothing but `RunIndex`, agree with the model's `incRunIndex` / `decRunIndex` for every
+    scanner state, keep `RunIndex` inside the 32-entry J table, and every entry of the regenerated
+    table is a shift count ≤ 15.  (Added after seeded change C08-m8: a saturating `min(i+1, len(J))`
+    leaves the table by one, which only a ≥ 32768-sample flat line can reach.) -/
+theorem jls_run_index_generated (r : Gen.JpegLs.RunModeScanner) :
+    (Gen.JpegLs.RunModeScanner.incRunIndex r).RunIndex = incRunIndex r.RunIndex ∧
+    (Gen.JpegLs.RunModeScanner.DecRunIndex r).RunIndex = decRunIndex r.RunIndex ∧
+    (Gen.JpegLs.RunModeScanner.incRunIndex r).traits = r.traits ∧
+    (Gen.JpegLs.RunModeScanner.DecRunIndex r).traits = r.traits ∧
+    (0 ≤ r.RunIndex ∧ r.RunIndex ≤ 31 →
+      (0 ≤ (Gen.JpegLs.RunModeScanner.incRunIndex r).RunIndex ∧ (Gen.JpegLs.RunModeScanner.incRunIndex r).RunIndex ≤ 31) ∧
+      (0 ≤ (Gen.JpegLs.RunModeScanner.DecRunIndex r).RunIndex ∧ (Gen.JpegLs.RunModeScanner.DecRunIndex r).RunIndex ≤ 31)) ∧
+    Gen.JpegLsRun.J.size = 32 := by
+  obtain ⟨i, t⟩ := r
+  unfold Gen.JpegLs.RunModeScanner.incRunIndex Gen.JpegLs.RunModeScanner.DecRunIndex incRunIndex decRunIndex
+  simp only [decide_eq_true_eq]
+  refine ⟨?_, ?_, ?_, ?_, ?_, by decide⟩
+  · split <;> rfl
+  · split <;> rfl
+  · split <;> rfl
+  · split <;> rfl
+  · intro h; constructor <;> split <;> simp only [] <;> omega
+
+example : (Gen.JpegLs.RunModeScanner.incRunIndex { RunIndex := 31, traits := default }).RunIndex = 31 ∧
+    (Gen.JpegLs.RunModeScanner.incRunIndex { RunIndex := 30, traits := default }).RunIndex = 31 ∧
+    (Gen.JpegLs.RunModeScanner.DecRunIndex { RunIndex := 0, traits := default }).RunIndex = 0 := by decide
+
 /-- the scan `FF 30` on a 13-sample line: eight 1-bits make the run 12 and RUNindex 8 (J = 2), the
     two remainder bits `11` would make it 15 > 13: an error, not an overshoot -/
 example : decodeRunLength [true, true, true, true, true, true, true, true, false, true, true, false, false, false, false] 0 13
